@@ -163,7 +163,9 @@ func (b *exampleBuilder) buildObjectKey(k internalSchema.ObjectNodeKey) ([]byte,
 	if err != nil {
 		return nil, err
 	}
-	return stdBytes.Trim(ex, `"`), nil
+	// Exactly one quote on each side: the example may end with an escaped quote.
+	ex = stdBytes.TrimPrefix(ex, []byte{'"'})
+	return stdBytes.TrimSuffix(ex, []byte{'"'}), nil
 }
 
 func (b *exampleBuilder) buildExampleForArrayNode(node *internalSchema.ArrayNode) ([]byte, error) {
